@@ -6,10 +6,10 @@ package main
 // on memory and its result; failure outcomes (errors) are explicit branches.
 
 import (
-	"os"
 	"fmt"
 	"go/types"
 	"math/big"
+	"os"
 	"strings"
 
 	"golang.org/x/tools/go/ssa"
